@@ -29,11 +29,18 @@ def explore_program(program, config, check, max_execs=200000, nontrivial=None):
     # execution cap is hit, everything with fewer deviations has been covered completely
     import heapq
 
+    import os
+    import time
+    deadline = float(os.environ.get("VERIF_DEADLINE") or "inf")
     stack = [(0, 0, ())]
     counter = 1
     res["deviations_completed"] = None
     first = True
     while stack:
+        if time.time() > deadline:
+            res["capped"] = True  # wall-clock budget of the whole check used up
+            res["deviations_completed"] = stack[0][0] - 1
+            break
         ndev, _, prefix = heapq.heappop(stack)
         ex = execute(build, prefix, **config)
         res["executions"] += 1
@@ -67,8 +74,8 @@ def explore_program(program, config, check, max_execs=200000, nontrivial=None):
             res["violations"].append({"kind": "violation", "what": v[:4],
                                       "decisions": ex.choices(),
                                       "log": [list(e) for e in ex.log[-80:]]})
-            if len(res["violations"]) >= 3:
-                return res
+            if len(res["violations"]) >= 3 or ex.status == "hang":
+                return res  # (a hanging execution costs a watchdog period: one is enough)
         tr = ex.trace
         res["max_points"] = max(res["max_points"], len(tr))
         base = [t[0] for t in tr]
